@@ -159,7 +159,9 @@ def run(ctx: Ctx):
     cp = ctx.repo.get_function(BASE, "ConstructivePolicy.forward")
     ctx.fn(cp)
     ok, why = False, "decoding loop not found"
-    for w in [n for n in ast.walk(cp.node) if isinstance(n, ast.While)]:
+    from ..model import canon_counters
+    cpn = canon_counters(cp.node)
+    for w in [n for n in ast.walk(cpn) if isinstance(n, ast.While)]:
         body = w.body
         incs = [(i, b) for i, b in enumerate(body) if isinstance(b, ast.AugAssign) and isinstance(b.op, ast.Add) and isinstance(b.target, ast.Name) and isinstance(b.value, ast.Constant) and b.value.value == 1]
         envstep = [i for i, b in enumerate(body) if any(isinstance(n, ast.Call) and isinstance(n.func, ast.Attribute) and n.func.attr == "step" and isinstance(n.func.value, ast.Name) and n.func.value.id == "env" for n in ast.walk(b))]
@@ -168,7 +170,7 @@ def run(ctx: Ctx):
             ctr = incs[0][1].target.id
             idx = subs[0].slice
             idx_ok = isinstance(idx, ast.Tuple) and len(idx.elts) == 2 and isinstance(idx.elts[0], ast.Constant) and idx.elts[0].value is Ellipsis and isinstance(idx.elts[1], ast.Name) and idx.elts[1].id == ctr
-            init = [n for n in cp.node.body if isinstance(n, ast.Assign) and any(isinstance(t, ast.Name) and t.id == ctr for t in n.targets)]
+            init = [n for n in cpn.body if isinstance(n, ast.Assign) and any(isinstance(t, ast.Name) and t.id == ctr for t in n.targets)]
             init_ok = len(init) == 1 and isinstance(init[0].value, ast.Constant) and init[0].value.value == 0
             order_ok = incs[0][0] > envstep[0]
             ok = idx_ok and init_ok and order_ok
